@@ -14,7 +14,7 @@ QUALS = ["ProcessPoolExecutor.shutdown", "_ExecutorManagerThread.is_shutting_dow
 class C05(TreeCheck):
     prop = "C05"
     rule_text = (
-        "programs from g_drain: the shutdown request is issued by shutdown(wait=True/False), context manager, del+gc, falling off __main__, or from a "
+        "programs from g_many_at_exit (every tenth: 6-12 executors alive, idle or with work in flight, when the script ends), g_slow_exit (every tenth: workers that need 1.5-3 s to leave after their sentinel) and g_drain: the shutdown request is issued by shutdown(wait=True/False), context manager, del+gc, falling off __main__, or from a "
         "second thread; at a position in {before any dispatch, mid-dispatch, after all done, long after (workers idled out)}; idle timeout in "
         "{None,0.2,0.02}; slow-pickling arguments; more workers than free queue slots. Profile run, then one delay (D) at a statement of the shutdown "
         "machinery in the parent, or in the worker's exit handshake (WD), or jitter (Z). Non-trivial = a shutdown request was observed with futures "
@@ -26,8 +26,8 @@ class C05(TreeCheck):
     def bases(self, tier, rng):
         n = 20 if tier == "quick" else 160
         out = []
-        for _ in range(n):
-            prog, meta = programs.g_drain(rng)
+        for i in range(n):
+            prog, meta = programs.g_many_at_exit(rng) if i % 10 == 3 else programs.g_slow_exit(rng) if i % 10 == 7 else programs.g_drain(rng)
             out.append({"program": prog, "meta": meta, "config": {"keep_procs": True, "env": meta.get("env", {})}})
         return out
 
